@@ -371,8 +371,11 @@ func (s *simSys) submit(ctx context.Context, in *simInst, e *simEntry, low bool)
 		// storage operations): the answer waits on whichever pool registered it
 		in.l.poolMu.Lock()
 		if now := in.l.currentPool; now != cur {
-			if _, ok := now.byHash[computeCacheHash(e.P.Certificate, e.P.IsPrecert, e.P.IssuerKeyHash)]; ok {
-				wt.Pool = now
+			// (the pool that holds this very leaf object)
+			for _, pl := range now.pendingLeaves {
+				if pl == e.P {
+					wt.Pool = now
+				}
 			}
 		}
 		in.l.poolMu.Unlock()
@@ -384,14 +387,39 @@ func (s *simSys) submit(ctx context.Context, in *simInst, e *simEntry, low bool)
 	case "pool":
 		wt.Pool = in.admitted[e.dedupKey()]
 		if wt.Pool == nil {
-			// admitted through another path (e.g. the HTTP handler): find out which pool the answer waits on
+			// admitted through another path (e.g. the HTTP handler): find out which pool the answer waits on — the
+			// accumulating pool or the one being sequenced, whichever registered an equal entry
+			h := computeCacheHash(e.P.Certificate, e.P.IsPrecert, e.P.IssuerKeyHash)
+			equal := func(p *pool) bool {
+				if p == nil {
+					return false
+				}
+				if _, ok := p.byHash[h]; ok {
+					return true
+				}
+				for _, pl := range p.pendingLeaves {
+					if pl.IsPrecert == e.P.IsPrecert && pl.IssuerKeyHash == e.P.IssuerKeyHash && bytes.Equal(pl.Certificate, e.P.Certificate) {
+						return true
+					}
+				}
+				return false
+			}
 			in.l.poolMu.Lock()
-			if _, ok := cur.byHash[computeCacheHash(e.P.Certificate, e.P.IsPrecert, e.P.IssuerKeyHash)]; ok {
+			switch {
+			case equal(cur):
 				wt.Pool = cur
-			} else {
+			case equal(in.l.currentPool):
+				wt.Pool = in.l.currentPool
+			case equal(in.p.pool):
 				wt.Pool = in.p.pool
 			}
 			in.l.poolMu.Unlock()
+			if wt.Pool == nil {
+				// (the answer is never waited for: which pool it hangs on is unknown)
+				s.w.mu.Lock()
+				s.w.violate("submission of entry %d was answered as a duplicate of a pending entry (source \"pool\"), but no entry equal to it (same certificate or TBSCertificate, entry type and issuer key hash) is pending or being sequenced", e.ID)
+				s.w.mu.Unlock()
+			}
 		}
 	}
 	in.waiters = append(in.waiters, wt)
